@@ -10,10 +10,10 @@ cd $W && git checkout -q -- . && git clean -fdq -e target
 DEMO_PATH=$(python3 -c "import json;print(json.load(open('$D/meta.json'))['demo_path'])")
 DEMO_NAME=$(basename $DEMO_PATH .rs)
 git apply $D/patch.diff || { echo "RESULT $D apply-failed"; exit 1; }
-SUITE=$(cargo test --workspace --no-fail-fast --offline 2>&1 | grep -E "^test result" | awk '{p+=$4; f+=$6} END {print p"/"f}')
+SUITE=$(cargo test --workspace --no-fail-fast --offline 2>&1 | grep -a -E "^test result" | awk '{p+=$4; f+=$6} END {print p"/"f}')
 cp $D/demo.rs $W/$DEMO_PATH
-WITH=$(cargo test --workspace --offline --test $DEMO_NAME 2>&1 | grep -E "^test result" | awk '{p+=$4; f+=$6} END {print p"/"f}')
+WITH=$(cargo test --workspace --offline --test $DEMO_NAME 2>&1 | grep -a -E "^test result" | awk '{p+=$4; f+=$6} END {print p"/"f}')
 git apply -R $D/patch.diff
-WITHOUT=$(cargo test --workspace --offline --test $DEMO_NAME 2>&1 | grep -E "^test result" | awk '{p+=$4; f+=$6} END {print p"/"f}')
+WITHOUT=$(cargo test --workspace --offline --test $DEMO_NAME 2>&1 | grep -a -E "^test result" | awk '{p+=$4; f+=$6} END {print p"/"f}')
 rm -f $W/$DEMO_PATH; git checkout -q -- . ; git clean -fdq -e target
 echo "RESULT $D suite_with_mutation(pass/fail)=$SUITE demo_with=$WITH demo_without=$WITHOUT"
